@@ -4,7 +4,8 @@ import PsModel.Model.C20
 
 A line means something only if, after removing the comment and surrounding blanks, it is `name` or
 `name==version` with a plain distribution name and a version that `Version()` accepts; everything else
-(blank, comment, `>=`/`<=`/`~=`/`!=`/`,` forms, several `==`, a pin that is not a version) is ignored.
+(blank, comment, `>=`/`<=`/`~=`/`!=`/`,` forms – any line with one of the specifier patterns `SPEC_PATS` –,
+several `==`, a pin that is not a version) is ignored.  The spec does not depend on the model's `Cfg`.
 The selected version of a package is *a* highest valid pin, the unpinned marker only if there is no valid pin,
 nothing if no line mentions it.  All definitions below look at the lines only through membership.
 -/
@@ -21,17 +22,22 @@ structure VerOk {V} (ver : Ver V) : Prop where
 
 /-- the well-formed-pin fragment: if the code sees a pin in the line, the pinned string is a version (or the
 sentinel, which the code cannot tell from an unpinned line) -/
-def GoodLine {V} (ver : Ver V) (raw : Str) : Prop :=
-  ∀ n v, parseLine raw = some (n, some v) → v = UNP ∨ ∃ a, ver.parse v = some a
+def GoodLine {V} (cfg : Cfg) (ver : Ver V) (raw : Str) : Prop :=
+  ∀ n v, parseLine cfg raw = some (n, some v) → v = UNP ∨ ∃ a, ver.parse v = some a
 
 /-- characters of a plain distribution name (PEP 508 identifier) -/
 def nameChar (c : Char) : Bool := c.isAlphanum || c == '-' || c == '_' || c == '.'
 
 def plainName (n : Str) : Bool := !n.isEmpty && n.all nameChar
 
+/-- what marks the version-specifier operators other than `==` (`>= <= > <`, `~=`, `!=` and the `,` that joins
+clauses): a line that contains one of these substrings is not of the supported `name` / `name==version` form.  A
+lone `!` is not among them: it separates the epoch of a version (`1!2.0`). -/
+def SPEC_PATS : List Str := [[','], ['>'], ['<'], ['~', '='], ['!', '=']]
+
 /-- meaning of one line: `(name, none)` unpinned, `(name, some v)` a valid pin, `none` ignored -/
 def specLine {V} (ver : Ver V) (raw : Str) : Option (Str × Option Str) :=
-  match parseLine raw with
+  match parseLineWith SPEC_PATS raw with
   | some (n, none) => if plainName n then some (n, none) else none
   | some (n, some v) => if plainName n && (ver.parse v).isSome then some (n, some v) else none
   | none => none
